@@ -204,7 +204,9 @@ def run(ctx, res):
                             c_ = frozenset((EQ,)) if e_.b[1] == 0 else frozenset((GT,))
                         if c_ is not None:
                             blk.append(c_)
-                res.check(bool(blk) and blk[-1] == frozenset((EQ,)), "C02.R2", site(f, "null-only-without-block"),
+                # no block was stored into the iterator at all (the index named none), or the last one stored is NULL
+                anyb = [e_ for e_ in stores if re.sub(r"@\d+", "", e_.a).endswith("->b")]
+                res.check((not anyb) or (bool(blk) and blk[-1] == frozenset((EQ,))), "C02.R2", site(f, "null-only-without-block"),
                           "the constructor returns NULL only when no block could be loaded",
                           "%s returns NULL although a block was loaded: a range/prefix lookup starting just behind a block's last key must continue in the next block"
                           % f.name, f.loc(f.body), p.describe(f))
